@@ -66,6 +66,26 @@ Theorem C16_timing_identical : forall sf charts tmpl_chart out cs,
 Proof. exact sm_to_ssc_timing. Qed.
 Print Assumptions C16_timing_identical.
 
+(* ... and with ANY simfile template the caller supplies (its own charts come first in the result, hence the index shift),
+   under the property's assumption on templates: it supplies no delay or warp the source lacks, its version tag is
+   well-formed; whether that version is in the split-timing range does not matter, no chart of the result carries timing *)
+Theorem C16_timing_identical_any_template : forall sf charts tmpl_sf tmpl_chart out cs,
+  NoDupKeys sf -> (forall c, List.In c charts -> NoDupKeys c) ->
+  sm_to_ssc sf charts tmpl_sf tmpl_chart = COk (out, cs) ->
+  has kBPMS sf = true -> has kSTOPS sf = true -> has kOFFSET sf = true -> has kVERSION sf = false ->
+  let base := fst (base_of Tables.blank_ssc_simfile tmpl_sf) in
+  let nbase := length (snd (base_of Tables.blank_ssc_simfile tmpl_sf)) in
+  (exists b, version_ok (get kVERSION base) = TOk b) ->
+  parse_events (attr base kDELAYS None) = Got [] ->
+  parse_events (match get kWARPS base with Some v => v | None => None end) = Got [] ->
+  chart_has_timing (chart_tmpl_of Tables.blank_ssc_chart tmpl_chart) = false ->
+  NoDupKeys (chart_tmpl_of Tables.blank_ssc_chart tmpl_chart) ->
+  (forall c key, List.In c charts -> List.In key Tables.chart_timing_properties -> get key c = None) ->
+  forall i c c', nth_error charts i = Some c -> nth_error cs (nbase + i) = Some c' ->
+    timing_data KSSC out CSSC c' = timing_data KSM sf CSM c.
+Proof. exact sm_to_ssc_timing_any_template. Qed.
+Print Assumptions C16_timing_identical_any_template.
+
 (* the blank templates supply no non-empty chart timing value: so a chart of the result never
    becomes its own timing source *)
 Theorem C16_blank_chart_has_no_timing : chart_has_timing Tables.blank_ssc_chart = false.
@@ -81,3 +101,18 @@ Example C16_example :
   | _ => false end = true /\
   sm_to_ssc [(kBPMS, Some (s [48;61;45;49]))]%N [] None None = CNotImpl.
 Proof. vm_compute. split; reflexivity. Qed.
+
+(* non-vacuity of the template theorem: a short simfile template (version 0.5, outside the split-timing range, a title, one chart
+   of its own) meets its hypotheses, and the converted chart sits behind the template's chart *)
+Example C16_template_example :
+  let tmpl := ([(kVERSION, Some (s [48;46;53])); (s [84], Some (s [116]))], [[(kNOTES, Some (s [49]))]])%N in
+  let base := fst (base_of Tables.blank_ssc_simfile (Some tmpl)) in
+  (match version_ok (get kVERSION base) with TOk false => true | _ => false end) &&
+  (match parse_events (attr base kDELAYS None) with Got [] => true | _ => false end) &&
+  (match sm_to_ssc [(kOFFSET, Some (s [48])); (kBPMS, Some (s [48;61;49;50;48])); (kSTOPS, Some (s []))]%N
+                   [[(s [83;84;69;80;83;84;89;80;69], Some (s [97])); (kNOTES, Some (s [48;48]))]%N] (Some tmpl) None with
+   | COk (out, [c0; c1]) => str_eqb (match get kNOTES c0 with Some (Some x) => x | _ => [] end) [49]%N &&
+                            str_eqb (match get kNOTES c1 with Some (Some x) => x | _ => [] end) [48;48]%N &&
+                            str_eqb (match get (s [84])%N out with Some (Some x) => x | _ => [] end) [116]%N
+   | _ => false end) = true.
+Proof. vm_compute. reflexivity. Qed.
